@@ -877,11 +877,8 @@ pub fn string_pad_start(
     }
 
     let pad_len = target_length - current_len;
-    let mut padding = String::new();
-    while padding.len() < pad_len {
-        padding.push_str(pad_string.as_str());
-    }
-    padding.truncate(pad_len);
+    // pad_len counts characters (like current_len), so the filler is cut by characters too
+    let padding: String = pad_string.as_str().chars().cycle().take(pad_len).collect();
 
     Ok(Guarded::unguarded(JsValue::String(JsString::from(
         format!("{}{}", padding, s.as_str()),
@@ -909,11 +906,8 @@ pub fn string_pad_end(
     }
 
     let pad_len = target_length - current_len;
-    let mut padding = String::new();
-    while padding.len() < pad_len {
-        padding.push_str(pad_string.as_str());
-    }
-    padding.truncate(pad_len);
+    // pad_len counts characters (like current_len), so the filler is cut by characters too
+    let padding: String = pad_string.as_str().chars().cycle().take(pad_len).collect();
 
     Ok(Guarded::unguarded(JsValue::String(JsString::from(
         format!("{}{}", s.as_str(), padding),
